@@ -16,6 +16,8 @@ for c in m['checks']:
         if f.endswith('.v') and (f.startswith('Props') or f.startswith('Examples')):
             targets.append('%s/%so' % (pid, f))
 core.coq_makefile()
+# every theory on disk (Model/Tie/Check files are imported by generated case files only, not by Props)
+targets = sorted(set(targets) | {os.path.relpath(p, core.COQ) + 'o' for p in core.all_v_files()})
 rc, out = core.sh(['make', '-f', 'Makefile.coq', '-k', '-j%d' % core.NCPU] + targets, cwd=core.COQ, timeout=7200)
 print(out[-3000:])
 print('coq build rc=%s (%d targets)' % (rc, len(targets)))
